@@ -635,9 +635,12 @@ class ClientSSM(SSM):
                 self.response(abort) # send it to the application
 
         elif (apdu.apduType == SegmentAckPDU.pduType):
-            if _debug: ClientSSM._debug("    - segment ack(!?)")
-
-            self.restart_timer(self.segmentTimeout)
+            # a duplicated or delayed ack of the segmented request, which is
+            # complete: it is discarded and the wait for the confirmation
+            # goes on until the APDU timeout that started it (replacing that
+            # timer by the shorter segment timeout made the whole request
+            # start over while the server was still working on it)
+            if _debug: ClientSSM._debug("    - late segment ack, ignored")
 
         else:
             raise RuntimeError("invalid APDU (3)")
